@@ -45,6 +45,9 @@ func vPipe[T any](o Observable[T], flat func(T) []int64) vPipeline {
 				}
 			})(oo)
 		}
+		if vUseRaw {
+			return oo.SubscribeWithContext(ctx, &vRawObs[T]{rec, flat})
+		}
 		return oo.SubscribeWithContext(ctx, vObs(rec, flat))
 	}
 }
